@@ -91,6 +91,12 @@ if P:
     _scratch = tempfile.mkdtemp(prefix='vf_c11_')
     try:
         _cf = os.path.join(_scratch, 'cache.bin')
+        # the same cache path is first used with default options and with one option flipped: the configuration under test must not
+        # be served either of those parsers
+        _flip = dict(OPTS)
+        _flip['maybe_placeholders'] = not OPTS.get('maybe_placeholders', True)
+        for _o in ({k: v for k, v in OPTS.items() if k in ('start', 'use_bytes')}, _flip):
+            Lark(GSRC, parser='lalr', cache=_cf, **_o)
         Lark(GSRC, parser='lalr', cache=_cf, **OPTS)
         assert os.path.exists(_cf)
         import lark.lark as _larkmod
@@ -110,6 +116,8 @@ if P:
     standalone.gen_standalone(DIRECT, out=_buf)
     _ns = {'__name__': 'vf_standalone_%s' % CFG.replace('-', '_')}
     exec(compile(_buf.getvalue(), '<standalone:%s>' % CFG, 'exec'), _ns)
+    # an earlier instance created from the same generated module with load-time options must not leak them into later instances
+    _ns['Lark_StandAlone'](propagate_positions=not OPTS.get('propagate_positions', False), g_regex_flags=OPTS.get('g_regex_flags', 0) | re.I)
     STANDALONE = _ns['Lark_StandAlone']()
     PARSERS = [('direct', DIRECT), ('load(save())', LOADED), ('cache hit', CACHED), ('standalone', STANDALONE)]
     if DOMAIN is None:
